@@ -565,7 +565,7 @@ def check(prop, tier):
     state = {"stop": False}
     cursor = {}
     stats = {"runs": 0, "ops": 0, "sim_seconds": 0.0, "nontrivial_runs": 0, "crashes": 0, "hangs": 0, "rechecks": 0, "recheck_mismatch": 0,
-             "faults": {}, "probes": {}, "by_arm": {}, "foreign": {}}
+             "faults": {}, "probes": {}, "by_arm": {}, "foreign": {}, "foreign_ex": {}}
     plan_hashes_nontrivial = set(); sigs = set(); samples = []
     found = {}     # (prop, cls) -> dict(detail, job)
     maxruns = int(os.environ.get("VERIF_MAXRUNS", str(QUICK_RUNS.get(prop, 800)) if tier == "quick" else "0"))
@@ -642,6 +642,7 @@ def check(prop, tier):
                             found.setdefault((p, c), {"detail": d, "flavour": fl, "profile": a["profile"], "seed": seed, "opts": opts, "plan": plan_text})
                         else:
                             stats["foreign"][p + " " + c] = stats["foreign"].get(p + " " + c, 0) + 1
+                            stats["foreign_ex"].setdefault(p + " " + c, "%s %d %s flavour=%s" % (a["profile"], seed, " ".join("%s=%s" % kv for kv in sorted(opts.items())), fl))
                 if res and res.get("leak"):
                     w.retire()
         finally:
@@ -804,6 +805,7 @@ def check(prop, tier):
             "worker_crashes": stats["crashes"], "worker_watchdog_timeouts": stats["hangs"], "slow_runs_that_finished_in_a_fresh_process": SLOW_RUNS[0],
             "determinism_rechecks": stats["rechecks"], "determinism_mismatches": stats["recheck_mismatch"],
             "violations_of_other_properties_seen": stats["foreign"],
+            "violations_of_other_properties_first_seed": stats["foreign_ex"],
             "known_findings_matched": sorted(known_hit.keys()),
             "twin_runs": twin_stats,
             "avoided_shapes": sorted(avoid),
